@@ -3,5 +3,5 @@ NEXT TNextAll
 CONSTANTS
   BUF = 4
   HEADLOOP = TRUE
-  CARRY = FALSE
+  CARRY = TRUE
 CHECK_DEADLOCK FALSE
